@@ -863,7 +863,7 @@ Fixpoint deser (fuel : nat) (c : dcfg) (kemn : bool) (t : ty) (x : src) {struct 
       | NErr e => DErr e
       | NNone x' => DOk VNone x'
       | NSome (EScalar v tag _ st _ _) x' =>
-        if (tag =? TAG_Null) || (negb (tag =? TAG_String) && scalar_is_nullish_for_option v st) then
+        if (tag =? TAG_Null) || (negb (tag =? TAG_String) && negb (tag =? TAG_Binary) && scalar_is_nullish_for_option v st) then
           match src_next x' with
           | NErr e => DErr e
           | NSome _ x'' | NNone x'' => DOk VNone x''
